@@ -62,6 +62,8 @@ structure State where
   started : Option Nat
   lastAct : Option Nat
   now : Nat
+  /-- `len(self._events)`: the event log, capped (`_log_event` keeps the last `logCap` entries) -/
+  events : Nat
   deriving DecidableEq, Repr
 
 inductive Op where
@@ -89,9 +91,15 @@ structure Out where
   lock : List LockEv
   tag : String
 
+/-- capacity of the event log, measured on the real `_log_event` on every run (E5 probe) -/
+def logCap : Nat := Gen.TelomereConsts.logCap
+
+/-- `k` calls of `_log_event`: each appends one entry and keeps the last `logCap` -/
+def logged (k : Nat) (n : Nat) : Nat := min logCap (n + k)
+
 def init (cfg : Cfg) : State :=
   { phase := .nascent, length := cfg.maxOps, errors := 0, ops := 0, renewals := 0, reason := none,
-    started := none, lastAct := none, now := 0 }
+    started := none, lastAct := none, now := 0, events := logged 1 0 }
 
 def lkNone : List LockEv := []
 def lkOnce : List LockEv := [.acq, .rel]
@@ -100,12 +108,13 @@ def lkNested : List LockEv := [.acq, .acq, .rel, .rel]
 /-- `_enter_senescence`: a no-op unless the lifecycle is ACTIVE -/
 def enterSenescence (s : State) (r : Reason) : State × List Ev :=
   if s.phase = .active then
-    ({ s with phase := .senescent, reason := some r }, [.change .active .senescent, .senescence r])
+    ({ s with phase := .senescent, reason := some r, events := logged 2 s.events },
+      [.change .active .senescent, .senescence r])
   else (s, [])
 
-/-- body of `start()` once the NASCENT test has passed -/
+/-- body of `start()` once the NASCENT test has passed (logs "phase_change" and "started") -/
 def started (s : State) : State :=
-  { s with phase := .active, started := some s.now, lastAct := some s.now }
+  { s with phase := .active, started := some s.now, lastAct := some s.now, events := logged 2 s.events }
 
 def start (s : State) : Out :=
   if s.phase = .nascent then ⟨started s, .unit, [.change .nascent .active], lkOnce, "start:go"⟩
@@ -135,7 +144,7 @@ def errorRateHit (errors ops : Nat) : Bool :=
   decide (0 < ops) && decide (Gen.TelomereConsts.errorRateNum * ops ≤ errors * Gen.TelomereConsts.errorRateDen)
 
 def recordError (cfg : Cfg) (s : State) : Out :=
-  let s1 : State := { s with errors := s.errors + 1 }
+  let s1 : State := { s with errors := s.errors + 1, events := logged 1 s.events }
   if cfg.errThr ≤ s1.errors then
     let r := enterSenescence s1 .errors
     ⟨r.1, .bool false, r.2, lkOnce, if r.2.isEmpty then "err:threshold-noop" else "err:threshold"⟩
@@ -177,22 +186,24 @@ def renew (cfg : Cfg) (s : State) (amount : Option Nat) (resetErrors : Bool) : O
     let len : Int := min (cfg.maxOps : Int) (s.length + renewAmount cfg amount)
     let errs : Nat := if resetErrors then 0 else s.errors
     if s.phase = .senescent then
-      ⟨{ s with length := len, errors := errs, renewals := s.renewals + 1, phase := .active, reason := none },
+      ⟨{ s with length := len, errors := errs, renewals := s.renewals + 1, phase := .active, reason := none,
+                events := logged 2 s.events },
         .bool true, [.change .senescent .active], lkOnce, "renew:recover"⟩
     else
-      ⟨{ s with length := len, errors := errs, renewals := s.renewals + 1 }, .bool true, [], lkOnce, "renew:extend"⟩
+      ⟨{ s with length := len, errors := errs, renewals := s.renewals + 1, events := logged 1 s.events },
+        .bool true, [], lkOnce, "renew:extend"⟩
 
 def apoptosis (s : State) : Out :=
   if s.phase = .terminated then ⟨s, .unit, [], lkOnce, "apo:terminated"⟩
-  else ⟨{ s with phase := .apoptotic }, .unit, [.change s.phase .apoptotic], lkOnce, "apo:go"⟩
+  else ⟨{ s with phase := .apoptotic, events := logged 2 s.events }, .unit, [.change s.phase .apoptotic], lkOnce, "apo:go"⟩
 
 def terminate (s : State) : Out :=
-  ⟨{ s with phase := .terminated }, .unit, [.change s.phase .terminated], lkOnce, "term"⟩
+  ⟨{ s with phase := .terminated, events := logged 2 s.events }, .unit, [.change s.phase .terminated], lkOnce, "term"⟩
 
-/-- `reset()`: a new epoch (renewal count and clock are kept) -/
+/-- `reset()`: a new epoch (renewal count and clock are kept; the log is cleared, then "reset" is logged) -/
 def reset (cfg : Cfg) (s : State) : Out :=
   ⟨{ phase := .nascent, length := cfg.maxOps, errors := 0, ops := 0, renewals := s.renewals, reason := none,
-     started := none, lastAct := none, now := s.now }, .unit, [], lkOnce, "reset"⟩
+     started := none, lastAct := none, now := s.now, events := logged 1 0 }, .unit, [], lkOnce, "reset"⟩
 
 def step (cfg : Cfg) (s : State) : Op → Out
   | .start => start s
@@ -235,9 +246,10 @@ def run (cfg : Cfg) (s : State) : List Op → State
 `on_phase_change` / `on_senescence` are the caller's code.  When one of them raises, the exception leaves the method
 through `_transition_to` / `_enter_senescence` (the `with self._lock` block releases the lock) and whatever the method
 would have done AFTER the callback is skipped.  `stepCb` is `step` under callbacks that always raise:
-* `changeRaises`: the first announced change ends the call — `_phase` is already assigned, the event was delivered;
-  an auto-starting `tick` stops after `start()` (nothing consumed), a recovering `renew` keeps the stale senescence
-  reason (`_senescence_reason = None` comes after the transition);
+* `changeRaises`: the first announced change ends the call — `_phase` is already assigned, "phase_change" is logged,
+  the event was delivered; `start()` does not log "started", an auto-starting `tick` stops after `start()` (nothing
+  consumed), a recovering `renew` keeps the stale senescence reason (`_senescence_reason = None` comes after the
+  transition);
 * `senescenceRaises`: everything was done except the return.
 The Boolean says whether the call ended by the callback's exception. -/
 
@@ -245,9 +257,19 @@ inductive CbMode where
   | ok | changeRaises | senescenceRaises
   deriving DecidableEq, Repr
 
+def Ev.isChange : Ev → Bool
+  | .change _ _ => true
+  | _ => false
+
+/-- number of `on_phase_change` calls in a callback stream -/
+def countChanges (evs : List Ev) : Nat := (evs.filter Ev.isChange).length
+
 def Ev.isSenescence : Ev → Bool
   | .senescence _ => true
   | _ => false
+
+/-- `start()` cut short by a raising `on_phase_change`: phase and timestamps assigned, "phase_change" logged, "started" not -/
+def startedCut (s : State) : State := { started s with events := logged 1 s.events }
 
 def stepCb (m : CbMode) (cfg : Cfg) (s : State) (op : Op) : Out × Bool :=
   match m with
@@ -257,7 +279,8 @@ def stepCb (m : CbMode) (cfg : Cfg) (s : State) (op : Op) : Out × Bool :=
     match (step cfg s op).evs with
     | .change a b :: _ =>
       (⟨match op with
-          | .tick _ => if s.phase = .nascent then started s else (step cfg s op).st
+          | .start => startedCut s
+          | .tick _ => if s.phase = .nascent then startedCut s else (step cfg s op).st
           | .renew _ _ => { (step cfg s op).st with reason := s.reason }
           | _ => (step cfg s op).st,
         (step cfg s op).ret, [.change a b], (step cfg s op).lock, (step cfg s op).tag⟩, true)
@@ -292,7 +315,7 @@ inductive WOp where
 /-- a lifecycle constructed when the clock shows `t` -/
 def initAt (cfg : Cfg) (t : Nat) : State :=
   { phase := .nascent, length := cfg.maxOps, errors := 0, ops := 0, renewals := 0, reason := none,
-    started := none, lastAct := none, now := t }
+    started := none, lastAct := none, now := t, events := logged 1 0 }
 
 def World.empty : World := ⟨0, []⟩
 
@@ -355,7 +378,7 @@ def pyOr : Option Nat → Nat → Nat
 
 /-- what the translator emits for a method that left its supported subset; never equal to `step` on all states -/
 def untranslatable (_construct : String) : State × List Ev × Ret :=
-  (⟨.terminated, -1, 0, 0, 0, none, none, none, 0⟩, [], .unit)
+  (⟨.terminated, -1, 0, 0, 0, none, none, none, 0, 0⟩, [], .unit)
 
 /-- the public method an operation calls (`none` for the clock) -/
 def Op.method : Op → Option String
